@@ -14,6 +14,7 @@ A recipe is a dict:
             'file'      : the whole file (module re-instantiation)
   end       regex for mode 'until'
   nth       which match of `start` to use (default 0)
+  self_type path that `Self::` is rewritten to (associated functions of the real type)
   rewrites  list of [regex, replacement, min_count]  (re.M | re.S as given in pattern flags (?s))
   self_to   if set, replace \\bself\\b by this identifier
   deasync   if true, drop `.await`
@@ -211,6 +212,9 @@ def lift(recipe, read_file):
         text = re.sub(r'\s*\.await\b', '', text)
     if recipe.get('self_to'):
         text = re.sub(r'\bself\b', recipe['self_to'], text)
+    if recipe.get('self_type'):
+        # associated functions (`Self::helper(..)`, e.g. a helper a refactoring extracted) resolve to the real type's
+        text = re.sub(r'\bSelf::', recipe['self_type'] + '::', text)
     for rw in recipe.get('rewrites', []):
         pat, rep = rw[0], rw[1]
         mn = rw[2] if len(rw) > 2 else 1
